@@ -139,6 +139,12 @@ Definition loop_find_token_next (v : Z) : Z :=
   (v - 1).
 
 (* source:
+   attempts = LogFileDateSinceSeeker.MAX_SEEK_HORIZON_EXPAND
+*)
+Definition loop_find_token_init (tt_ : unit) : Z :=
+  (4096).
+
+(* source:
    while True: ... attempts -= 1 ... if attempts <= 0:
        break
 *)
@@ -150,6 +156,12 @@ Definition loop_find_token_reverse_continues (v : Z) : bool :=
 *)
 Definition loop_find_token_reverse_next (v : Z) : Z :=
   (v - 1).
+
+(* source:
+   attempts = LogFileDateSinceSeeker.MAX_SEEK_HORIZON_EXPAND
+*)
+Definition loop_find_token_reverse_init (tt_ : unit) : Z :=
+  (4096).
 
 (* source:
    while attempts > 0: ... attempts -= 1
@@ -164,6 +176,12 @@ Definition loop_tfld_next (v : Z) : Z :=
   (v - 1).
 
 (* source:
+   attempts = LogFileDateSinceSeeker.MAX_TRY_FIND_WITH_DATE_ATTEMPTS
+*)
+Definition loop_tfld_init (tt_ : unit) : Z :=
+  (500).
+
+(* source:
    while max_tries > 0: ... max_tries -= 1
 *)
 Definition loop_put_result_continues (v : Z) : bool :=
@@ -174,6 +192,12 @@ Definition loop_put_result_continues (v : Z) : bool :=
 *)
 Definition loop_put_result_next (v : Z) : Z :=
   (v - 1).
+
+(* source:
+   max_tries = MAX_QUEUE_RETRIES
+*)
+Definition loop_put_result_init (tt_ : unit) : Z :=
+  (10).
 
 (* source:
    attempts -= 1
